@@ -306,7 +306,13 @@ def oracleOp (st : St) (op : List String) (ret : String) (raw stv : AList CaStat
         | "err" :: _ :: lbl :: _ =>
           (match e with
            | some ps => if ps.optFailure == some lbl then [] else ["status_is_last_exchange:sync-err"]
-           | none => ["status_is_last_exchange:sync-err"])
+           | none => ["status_is_last_exchange:sync-err"]) ++
+          -- nothing succeeded in this sync unless a revocation request was answered: last_success stays
+          (let before := (alookup (viewOf (pViews (jget st.prev "raw")) ca).parents p).bind (·.lastSuccess)
+           let nRev := jnat (jpath st.prev ["truth", ca, "parents", p, "revokes"])
+           if (e.bind (·.lastSuccess)) == before then []
+           else if mode != "list" && nRev == 0 then ["last_success_is_last_successful:vacuous-revocation"]
+           else if mode == "list" then ["last_success_is_last_successful:moved-on-failure"] else [])
         | _ => []
       -- the parent's view of this child: the request just made (one request only)
       let childSide :=
@@ -402,15 +408,17 @@ def directCandidates (st : St) (op : List String) (ret : String) (raw : AList Ca
     let oe := obsParent raw ca p
     let t := ((oe.bind (·.lastExchange)).map (·.time)).getD 0
     let ls := ((oe.bind (·.lastSuccess))).getD 0
+    let nRev := jnat (jpath st.prev ["truth", ca, "parents", p, "revokes"])
     let parentSide : List (List Ev × String) :=
       if mode == "list" then
         if isErr then [([.parentList ca p uri true (.error lbl) t], "list-refused")]
         else [([.parentList ca p uri true (.ok ((truthEnt obs ca p).getD [])) t], "list-ok")]
       else
         if isErr then
-          [(syncParentEvents ca p uri true (.error lbl) (.ok ()) (.ok []) t, "revoke-refused"),
-           ([.parentRevokes ca p uri (.ok ()) ls, .parentCerts ca p uri (.error lbl) t], "request-refused")]
-        else [(syncParentEvents ca p uri true (.ok ()) (.ok ()) (.ok []) t, "requests-ok")]
+          [(syncParentEvents ca p uri true nRev (.error lbl) (.ok ()) (.ok []) t, "revoke-refused"),
+           ([.parentRevokes ca p uri nRev (.ok ()) ls, .parentCerts ca p uri (.error lbl) t],
+            if nRev == 0 then "request-refused-after-vacuous-success" else "request-refused")]
+        else [(syncParentEvents ca p uri true nRev (.ok ()) (.ok ()) (.ok []) t, "requests-ok")]
     let known := (truthChild st.prev p ca).isSome
     let oc := obsChild raw p ca
     let tc := ((oc.bind (·.lastExchange)).map (·.time)).getD 0
